@@ -4,7 +4,7 @@ import ast
 from .. import nf
 from ..nf import Poly, Tup, Const
 from ..model import AnalysisError, dotted
-from ..rules import run as analyse, returns, fmt, root_chain, alias_root, is_app, seg, kwarg
+from ..rules import run as analyse, returns, fmt, root_chain, alias_root, is_app, seg, kwarg, conds_str
 
 
 def _ordered_stmts(func):
@@ -374,6 +374,11 @@ def mul_concat(chk, repo, clause):
                             ok, det = None, f'undecided: tilt = {fmt(t)[:80]} is built from both lists in a way that is not followed'
     chk.ob(clause, 'E-ownership', fm.key, 'product carries a new list with both operands\' tilts', (ok and n > 0) if ok is not None else None,
            det or 'tilt = self.tilt + other.tilt (new list)', fm.loc())
+    # ... and is itself a new Field on every path: an operand handed back as "the product" is shared between the wavefront
+    # that went in and the one that comes out (a tilt appended to one is appended to both)
+    same = [p for p in returns(paths) if p.ret in (S('self'), S('other'))]
+    chk.ob(clause, 'E-ownership', fm.key, 'the product is a new Field on every path (never one of the operands)', not same,
+           f'[{conds_str(same[0])[:100]}] returns {fmt(same[0].ret)}' if same else '', fm.loc())
 
 
 def shape_scan(chk, repo, clause, modules, skip=()):
@@ -469,6 +474,38 @@ def self_delegation_forwards(chk, repo, clause, keys):
                    f'{len(params)} parameter(s) forwarded', s.loc())
         if n == 0:
             chk.undecided(clause, 'B6-forward', key, 'self-delegation forwards every parameter', 'no self-delegation found', f.loc())
+
+
+def ctor_forwarding_rule(chk, repo, clause, module='plane'):
+    """A plane class that refines another hands every constructor argument it shares with the parent on to it: an argument
+    that is accepted and then left out of `super().__init__(...)` silently takes the parent's default (a mask that is
+    ignored, a pixel scale that is dropped)."""
+    bad, n = [], 0
+    for cls in repo.modules[module].classes.values():
+        init = cls.methods.get('__init__') if isinstance(cls.methods, dict) else None
+        if init is None:
+            continue
+        own = [a.arg for a in init.node.args.posonlyargs + init.node.args.args + init.node.args.kwonlyargs if a.arg != 'self']
+        for node in ast.walk(init.node):
+            if not (isinstance(node, ast.Call) and isinstance(node.func, ast.Attribute) and node.func.attr == '__init__'
+                    and isinstance(node.func.value, ast.Call) and isinstance(node.func.value.func, ast.Name)
+                    and node.func.value.func.id == 'super'):
+                continue
+            parent = cls.find_method('__init__', after=cls)
+            if parent is None:
+                continue
+            ppos = [a.arg for a in parent.node.args.posonlyargs + parent.node.args.args if a.arg != 'self']
+            pnames = set(ppos) | {a.arg for a in parent.node.args.kwonlyargs}
+            given = {k.arg for k in node.keywords if k.arg} | set(ppos[:len(node.args)])
+            n += 1
+            for q in own:
+                if q in pnames and q not in given:
+                    # used some other way (folded into another argument) is fine; accepted and never mentioned again is not
+                    used = [x for x in ast.walk(init.node) if isinstance(x, ast.Name) and x.id == q and isinstance(x.ctx, ast.Load)]
+                    if not used:
+                        bad.append(f'{cls.key}.__init__ accepts `{q}` but does not pass it to {parent.key} at {init.loc(node)}')
+    chk.ob(clause, 'B6-forward', f'lentil.{module}', 'a refining class passes the constructor arguments it shares with its parent on to it',
+           (not bad) if n else None, '; '.join(bad[:2]) + (': the parent falls back to its default' if bad else f'{n} super().__init__ call(s)'), '')
 
 
 def loop_accumulator(p, value):
